@@ -17,10 +17,12 @@ from vf.forest import Call, gen_shape
 
 E, X, LOSTREC = 0, 1, 2
 BASE = 0x400000
+BASE2 = 0x700000            # load address of the module in a task's second session
+SID2 = "b1b2c3d4e5f60719"
 NAMES = ["main", "alpha", "beta", "gamma", "delta", "eps", "zeta", "eta", "theta", "iota"]
 FORKS = ["fork", "vfork", "daemon"]
-FIELD_ORDER = ["duration", "tid", "addr", "time", "delta", "elapsed", "module"]
-FIELD_WIDTH = {"duration": 10, "tid": 9, "addr": 12, "time": 18, "delta": 10, "elapsed": 10, "module": 16}
+FIELD_ORDER = ["duration", "tid", "addr", "time", "delta", "elapsed", "task", "module"]
+FIELD_WIDTH = {"duration": 10, "tid": 9, "addr": 12, "time": 18, "delta": 10, "elapsed": 10, "task": 15, "module": 16}
 UNITS = {"us": 0, "ms": 1, " s": 2, " m": 3, " h": 4}
 BAD = ("B", 0, 0, 77777, 0, 0, 0, 0, 0)          # a line that could not be parsed: matches nothing
 
@@ -207,11 +209,28 @@ def gen_case1(rng, size="small"):
                           "recs": [list(r) for r in t["recs"]], "kind": t["kind"], "cut": bool(t.get("cut")),
                           "lost": bool(t.get("lost")),
                           "created": old})
+    # a second session (the forked process maps the program again at another address) in a leaf child
+    sess2 = None
+    if rng.random() < 0.2:
+        cand = []
+        for i, t in enumerate(out_tasks):
+            if t["parent"] is None or t["lost"] or any(u["parent"] == i for u in out_tasks):
+                continue
+            rs = t["recs"]
+            # between two top-level calls of the task (no call of this session stays open across the switch)
+            js = [j for j in range(1, len(rs)) if rs[j][0] > rs[j - 1][0] and rs[j][1] == E and rs[j - 1][1] == X
+                  and rs[j][2] == rs[j - 1][2] and all(x[2] >= rs[j][2] for x in rs[:j] if x[1] == E)]
+            if js:
+                cand.append((i, js))
+        if cand and not illformed:
+            i, js = rng.choice(cand)
+            sess2 = {"task": i, "at": rng.choice(js)}
     maxd = max([r[2] for t in out_tasks for r in t["recs"]] or [0])
     if any(t["lost"] for t in out_tasks):
         maxd += 4            # the slots user_stack_count + 0..depth are touched after a marker
     max_stack = rng.choice([1024, 1024, maxd + 1, maxd + 2])
-    return {"names": names, "forks": forks, "tasks": out_tasks, "max_stack": max(max_stack, 1), "illformed": illformed}
+    return {"names": names, "forks": forks, "tasks": out_tasks, "max_stack": max(max_stack, 1), "illformed": illformed,
+            "sess2": sess2}
 
 
 def hand_cases():
@@ -258,6 +277,13 @@ def hand_cases():
         {"tid": 70, "parent": None, "lost": True, "recs": [[1000, E, 0, 0], [1010, E, 1, 1], [1020, X, 1, 1], [0, LOSTREC, 0, 3],
                                                           [1030, E, 2, 3], [1040, X, 2, 3], [1050, X, 1, 2], [1060, X, 0, 0]]},
         {"tid": 71, "parent": 0, "recs": [[1035, X, 2, 3], [1036, E, 2, 2], [1037, X, 2, 2], [1038, X, 1, 2]]}]})
+    # nesting up to the largest depth a record can carry (10-bit depth field, max_stack 1024 = default -D)
+    deep = [[1000 + d, E, d, d % 3] for d in range(1024)] + [[3000 + (1023 - d), X, d, d % 3] for d in range(1023, -1, -1)]
+    cs.append({"names": ["main", "a", "b"], "forks": [], "max_stack": 1024, "illformed": False, "variants_only": True,
+               "variants": [{"fold": True, "sel": None, "fields": ["duration", "tid"], "column": None, "newline": False},
+                            {"fold": False, "sel": [0], "fields": ["duration", "tid", "time"], "column": None, "newline": False}],
+               "tasks": [{"tid": 9, "parent": None, "recs": deep},
+                         {"tid": 8, "parent": None, "recs": [[1500, E, 0, 1], [2500, X, 0, 1]]}]})
     # durations at the unit boundaries
     cs.append({"names": ["main", "a"], "forks": [], "max_stack": 2, "illformed": False, "tasks": [
         {"tid": 7, "parent": None, "recs": [[1000, E, 0, 0], [1000, E, 1, 1], [1999, X, 1, 1], [2000, E, 1, 1], [3000, X, 1, 1],
@@ -273,6 +299,8 @@ def fields_of(v):
 
 
 def gen_variants(rng, case, thorough):
+    if case.get("variants_only"):
+        return [dict(v) for v in case["variants"]]
     n = len(case["tasks"])
     allf = ["duration", "tid", "addr", "time", "delta", "elapsed", "module"]
 
@@ -305,6 +333,8 @@ def gen_variants(rng, case, thorough):
         dict(D, fields=rng.sample(allf, rng.randrange(1, 5))),
         dict(D, fold=rng.random() < 0.5, column=rng.choice([8, 2]), newline=True, fields=["tid", "time", "duration"], sel=any_sel()),
         dict(D, fields=["time", "elapsed", "delta"], fold=False),
+        dict(D, fields=list(FIELD_ORDER), fspec="all"),
+        dict(D, fields=["duration", "tid", "task"] + rng.sample(["addr", "time", "delta", "elapsed", "module"], 2), fspec="+"),
     ]
     if thorough:
         vs += extra
@@ -313,6 +343,8 @@ def gen_variants(rng, case, thorough):
     vs += [dict(v) for v in case.get("variants", [])]      # variants a hand-written / regression case insists on
     for v in vs:
         v["fields"] = [f for f in FIELD_ORDER if f in v["fields"]]
+        if v.get("fspec") == "+":
+            v["fspec"] = "+" + ",".join(f for f in v["fields"] if f not in ("duration", "tid"))
     return vs
 
 
@@ -322,7 +354,9 @@ def variant_args(v, case):
         a.append("--no-merge")
     if v["sel"] is not None:
         a.append("--tid=" + ",".join(str(case["tasks"][i]["tid"]) for i in v["sel"]))
-    if v["fields"] != ["duration", "tid"]:
+    if v.get("fspec"):
+        a += ["-f", v["fspec"]]          # `all`, or `+a,b` (the default fields plus a, b)
+    elif v["fields"] != ["duration", "tid"]:
         a += ["-f", ",".join(v["fields"]) if v["fields"] else "none"]
     if v["column"] is not None:
         a += ["--column-view", "--column-offset=%d" % v["column"]]
@@ -337,10 +371,13 @@ def write_dir(case, d):
         shutil.rmtree(d)
     syms = sym_table(case)
     tl = []
-    for t in case["tasks"]:
+    s2 = case.get("sess2")          # {"task": i, "at": j}: records j.. of task i belong to a second session of its process
+    for ti, t in enumerate(case["tasks"]):
         tl.append({"tid": t["tid"], "pid": t["tid"], "ppid": None,
                    "recs": [{"t": r[0], "type": r[1], "depth": r[2],
-                             "addr": r[3] if r[1] == LOSTREC else BASE + syms[r[3]][0]} for r in t["recs"]]})
+                             "addr": r[3] if r[1] == LOSTREC else
+                             (BASE2 if s2 and s2["task"] == ti and ri >= s2["at"] else BASE) + syms[r[3]][0]}
+                            for ri, r in enumerate(t["recs"])]})
     desc = {"syms": syms, "base": BASE, "tasks": tl, "max_stack": case["max_stack"]}
     datadir.write(desc, d)
     # task.txt in creation order (a parent before its children); threads belong to the first root
@@ -368,6 +405,16 @@ def write_dir(case, d):
             progressed = True
         if not progressed:
             raise RuntimeError("cyclic parents in case")
+    if s2:
+        # a new session of the (forked) process: same program mapped at another address; libmcount sends
+        # SESSION and then TASK again
+        t = tasks[s2["task"]]
+        ts = t["recs"][s2["at"]][0]
+        lines.append('SESS timestamp=%d.%09d pid=%d sid=%s exename="/fake/prog"' % (ts // 10**9, ts % 10**9, t["tid"], SID2))
+        lines.append("TASK timestamp=%d.%09d tid=%d pid=%d" % (ts // 10**9, ts % 10**9, t["tid"], t["tid"]))
+        with open(os.path.join(d, "sid-%s.map" % SID2), "w") as f:
+            f.write("%x-%x r-xp 00000000 08:01 1234                       /fake/prog\n" % (BASE2, BASE2 + 0x100000))
+            f.write("7ffc00000000-7ffc00021000 rw-p 00000000 00:00 0                          [stack]\n")
     with open(os.path.join(d, "task.txt"), "w") as f:
         f.write("\n".join(lines) + "\n")
 
@@ -387,6 +434,7 @@ def parse_output(out, v, case):
     tid_idx = {t["tid"]: i for i, t in enumerate(case["tasks"])}
     syms = sym_table(case)
     addr_idx = {BASE + s[0]: i + 1 for i, s in enumerate(syms)}
+    addr_idx.update({BASE2 + s[0]: i + 1 for i, s in enumerate(syms)})
     addr_idx[0] = 0
     marker = "\nuftrace stopped tracing with remaining functions\n================================================\n"
     rem_txt = ""
@@ -448,6 +496,9 @@ def parse_output(out, v, case):
                     if m:
                         vals[f] = int(m.group(1)) * 10**9 + int(m.group(2))
                     elif s.strip():
+                        ok = False
+                elif f == "task":
+                    if s.strip() not in ("prog", ""):      # comm of every task of the synthetic directory
                         ok = False
                 elif f == "module":
                     if s.strip() == "[unknown]":
@@ -656,6 +707,8 @@ def case_tags(case):
         tags.append("tie-across-tasks")
     if any(a[0] == b[0] for t in case["tasks"] for a, b in zip(t["recs"], t["recs"][1:])):
         tags.append("tie-inside-task")
+    if case.get("sess2"):
+        tags.append("second-session")
     if any(t.get("cut") for t in case["tasks"]):
         tags.append("open-tail")
     for t in case["tasks"]:
